@@ -73,8 +73,9 @@ _IFACE_FIELDS = {('Attribute', 'attr'): 'attr', ('keyword', 'arg'): 'keyword', (
 
 
 def _node(a, b, path, al):
-    if isinstance(a, ast.Constant) and isinstance(b, ast.Name) and isinstance(b.ctx, ast.Load) \
-            and (a.value is None or isinstance(a.value, (str, bytes, bool))):
+    if isinstance(a, ast.Constant) and isinstance(b, ast.Name) and isinstance(b.ctx, ast.Load) and a.value is not Ellipsis:
+        # any literal replaced by a name is a hoist candidate; alpha.check then demands an alias with strictly the same constant
+        # (the implementation also hoists numbers equal to True/False such as 1.0, with their own type)
         al.hoists.append((a, b))
         return
     if type(a) is not type(b):
